@@ -355,6 +355,15 @@ def gen(draw, lens, L, curv, depth):
         for i in range(1, n_args):
             if draw(st.integers(0, 3)) == 0:
                 args[i] = ["const", draw(st.sampled_from(DY))] if (L == 1 or draw(st.booleans())) else ["const", dyl(draw, L)]
+        if L > 1 and draw(st.integers(0, 5)) == 0:
+            # several constant arguments of mixed shapes (they are folded into one constant when the term is built):
+            # a scalar and a vector constant whose entries lie on both sides of the scalar, in either order
+            cs = draw(st.sampled_from(DY))
+            cv = [cs + draw(st.sampled_from([-1.5, -0.5, 0.5, 1.0, 2.0])) for _ in range(L)]
+            pair = [["const", cs], ["const", cv]]
+            if draw(st.booleans()):
+                pair.reverse()
+            args = args[:max(1, n_args - 2)] + pair
         return [op, args]
     if k == "minmax1":
         op = "max" if curv == "convex" else "min"
